@@ -416,6 +416,10 @@ func c16DstsOf(spec c16FileSpec, kind string) []string {
 	switch {
 	case spec.Typed:
 		return c16DstsTyped
+	case spec.Ref:
+		return []string{""}
+	case spec.Kinds:
+		return []string{"map", "nilmap", "any"}
 	case spec.Dyn && kind == "reader":
 		return []string{"map", "nilmap", "any"}
 	case spec.Dyn:
@@ -429,6 +433,9 @@ func c16NewDst(b *c16Built, f *parquet.File, dst string) (c16TypedAccess, error)
 	// the explicit schema: the one the file was written with, or for files
 	// written from c16Rec the schema found in the file
 	explicit := c16DynSchema
+	if b.spec.Kinds {
+		explicit = c16KindsSchema
+	}
 	if b.spec.Typed {
 		if f == nil {
 			var err error
@@ -441,17 +448,19 @@ func c16NewDst(b *c16Built, f *parquet.File, dst string) (c16TypedAccess, error)
 	switch {
 	case b.spec.Typed && dst == "":
 		return &c16Dst[c16Rec]{}, nil
+	case b.spec.Ref && dst == "":
+		return &c16Dst[c16RefRec]{}, nil
 	case b.spec.Dyn && dst == "struct":
 		return &c16Dst[c16DynS]{schema: explicit}, nil
 	case b.spec.Dyn && dst == "mapfields":
 		return &c16Dst[c16DynM]{schema: explicit}, nil
 	case b.spec.Dyn && dst == "anyfields":
 		return &c16Dst[c16DynI]{schema: explicit}, nil
-	case (b.spec.Typed || b.spec.Dyn) && dst == "map":
+	case (b.spec.Typed || b.spec.Dyn || b.spec.Kinds) && dst == "map":
 		return &c16Dst[map[string]any]{schema: explicit, mk: premade}, nil
-	case (b.spec.Typed || b.spec.Dyn) && dst == "nilmap":
+	case (b.spec.Typed || b.spec.Dyn || b.spec.Kinds) && dst == "nilmap":
 		return &c16Dst[map[string]any]{schema: explicit}, nil
-	case (b.spec.Typed || b.spec.Dyn) && dst == "any":
+	case (b.spec.Typed || b.spec.Dyn || b.spec.Kinds) && dst == "any":
 		return &c16Dst[any]{schema: explicit}, nil
 	}
 	return nil, fmt.Errorf("a file of this family cannot be read into destination type %q", dst)
@@ -459,9 +468,15 @@ func c16NewDst(b *c16Built, f *parquet.File, dst string) (c16TypedAccess, error)
 
 // expectNorm: the normal form of row i of the file.
 func (b *c16Built) expectNorm(i int) string {
-	if b.spec.Dyn {
+	switch {
+	case b.spec.Dyn:
 		r := c16DynMake(b.spec.Salt, i)
 		return c16NormOf(&r)
+	case b.spec.Ref:
+		r := c16RefMake(b.spec.Salt, i)
+		return c16NormOf(&r)
+	case b.spec.Kinds:
+		return c16NormOf(c16KindsGo(b.spec.Salt, i))
 	}
 	r := c16MakeRec(b.spec.Salt, i, false, 2)
 	return c16NormOf(&r)
